@@ -1,8 +1,8 @@
 """Shared by C06 and C08 (family: iter).  Spec: SortedIter.tla / MCSortedIter.tla / TraceSortedIter.tla,
 harness: harness/cmd/vh-iter.
 
-Binding A: TLC exports (i) one CASE line per (index content, query) with the denotation and (ii) the cursor graph
-of every denotation (EDGE lines); the Go adapter compiles every query with the real code on real indices and
+Binding A: TLC exports (i) the query trees (QUERIES) and one DENS line per index content with the denotation of every
+query, and (ii) the cursor graph of every denotation (EDGE lines); the Go adapter compiles every query with the real code on real indices and
 executes every call sequence of the graph up to a depth, judging every call against the graph.
 Binding B: random real runs recorded by `vh-iter drive`, judged by TLC (TraceSortedIter.tla)."""
 import json
